@@ -23,7 +23,8 @@ func Harness_C07_forward_server() {
 	fromUp := vnet.Script(up, "up", M, L)
 	fromDown := vnet.Script(down, "down", M, L)
 	vnet.Closer(up, down)
-	p := &TCPProxy{logger: log.NewNopLogger()}
+	// (built by the real constructor: whatever it sets up is in force)
+	p := NewTCPProxy(nil, nil, log.NewNopLogger())
 
 	p.forward(up, down)
 
